@@ -1,0 +1,11 @@
+// Copyright 2021-present The Atlas Authors. All rights reserved.
+// This source code is licensed under the Apache 2.0 license found
+// in the LICENSE file in the root directory of this source tree.
+
+//go:build !verif
+
+package cmdapi
+
+// simPoint marks an instant at which the deterministic simulator (build tag
+// "verif") may crash or park the process. It is a no-op in regular builds.
+func simPoint(string) {}
